@@ -41,7 +41,7 @@ use std::{
 
 /// Keep-alive timeout of the harness services. Long enough never to fire by itself during an
 /// execution; expiry is scripted with [`ServiceHarness::expire_keep_alive`].
-const KEEP_ALIVE: Duration = Duration::from_secs(120);
+const KEEP_ALIVE: Duration = Duration::from_secs(30);
 
 /// What a [`TransportService`] returned from one `poll_next`.
 #[derive(Debug, Clone, PartialEq, Eq)]
